@@ -12,7 +12,7 @@ import (
 const (
 	dDenom  = "uc4e"
 	dDenom2 = "uother"
-	dMaxAmt = "1e30"
+	dMaxAmt = "2e18"
 	dMain   = types.DistributorMainAccount
 	dVRC    = types.ValidatorsRewardsCollector
 	dGBC    = types.GovernanceBoosterCollector
